@@ -182,9 +182,24 @@ fn solv_plans(thorough: bool) -> Vec<Plan> {
                 ("mixed_refundable_lst_lowest", small_funds(|| seed_mixed_refundable(&k, seed_received(&k), true), 150)),
                 ("mid_received", small_funds(|| seed_mid_received(&k), 150)),
                 ("many_rewards", small_funds(|| seed_many_rewards(&k), 150)),
+                // two refundable staked-asset transfers while the contract also holds a received batch
+                ("received_refundable2", small_funds(
+                    || {
+                        let mut s = seed_received(&k);
+                        for kind in [1u8, 2] {
+                            let ap = s.apply(&hold(stake(&u(1), 20 + kind as u128)));
+                            let seq = ap.out.new_packets[0];
+                            s.apply(&Act::Outcome { seq, kind });
+                        }
+                        s
+                    },
+                    150,
+                )),
             ],
         );
         let mut o = MenuOpt::base();
+        o.recover_forced = true;
+        o.recover_forced_groups = true;
         o.deliver = vec![Rel::Exact, Rel::Minus1, Rel::Plus5, Rel::One];
         o.deliver_dev = false;
         o.fee_withdraw = vec![Rel::Exact, Rel::Half, Rel::Plus5];
